@@ -240,6 +240,36 @@ fn g1_kem_classic_enc_hybrid_key() {
     std::mem::forget(pk);
 }
 
+/// C02 S-kem (mixed flavours): a CLASSIC encapsulation made for a hybridized right is NOT opened by a key that
+/// holds a different hybridized secret (the mask must depend on the right's ElGamal secret in this path too).
+#[kani::proof]
+#[kani::unwind(2)]
+#[kani::stub(zeroize::optimization_barrier, nop_barrier)]
+#[kani::stub(alloc::fmt::format, no_format)]
+fn s_kem_classic_enc_hybrid_key_unauthorized() {
+    let mut rng = SymRng;
+    let k = kem1();
+    let x = scalar_nz();
+    let y = scalar_nz();
+    kani::assume(x != y);
+    let dkx = crate::verif_model::toy_kem::ToyDk(kani::any());
+    let dky = crate::verif_model::toy_kem::ToyDk(kani::any());
+    let pk = RightPublicKey::Hybridized { H: &k.h * &x, ek: dkx.ek() };
+    let S = Secret::random(&mut rng);
+    let r = G_hash(&S).unwrap();
+    let c = vec![&k.p0 * &r, &k.p1 * &r];
+    let (ss, enc) = c_encaps(S, c, r, vec![&pk]).unwrap();
+    let usk = usk1!(k, RightSecretKey::Hybridized { sk: y, dk: dky });
+    let res = decaps(&mut rng, &usk, &enc).unwrap();
+    kani::cover!(res.is_none(), "decaps returned None");
+    assert!(res.is_none(), "a key holding another hybridized secret opened a classic encapsulation");
+    std::mem::forget(res);
+    std::mem::forget(ss);
+    std::mem::forget(usk);
+    std::mem::forget(enc);
+    std::mem::forget(pk);
+}
+
 /// C14 U-use: encapsulations only a parser can build (no right-encapsulation at all, either flavour; no trap)
 /// are passed to decapsulation: `None`, never a panic or an endless loop.
 #[kani::proof]
